@@ -48,11 +48,11 @@ Proof. cbv zeta. split; [vm_compute; reflexivity|vm_compute; discriminate]. Qed.
     the slab is still canonical *)
 Theorem C04_failed_ops_are_noops : forall ops n es,
   fits n es -> Forall wf_op ops -> Forall (fun o => is_pack_var o = false) ops ->
-  run (render n es) ops = run_dropping_failed (render n es) ops /\
-  exists es', run (render n es) ops = render n es' /\ fits n es'.
+  run ops (render n es) = run_dropping_failed (render n es) ops /\
+  exists es', run ops (render n es) = render n es' /\ fits n es'.
 Proof. exact failed_ops_are_noops. Qed.
 Theorem C04_all_failed_identity : forall ops n es,
   fits n es -> Forall wf_op ops -> Forall (fun o => is_pack_var o = false) ops ->
   (forall o, In o ops -> exists e, snd (step (render n es) o) = Err e) ->
-  run (render n es) ops = render n es.
+  run ops (render n es) = render n es.
 Proof. exact all_failed_identity. Qed.
